@@ -1,2 +1,10 @@
 import LyModel.Props.C13
-#print axioms LyModel.Props.C13.placeholder
+#print axioms LyModel.Props.C13.reverse_apply_partial
+#print axioms LyModel.Props.C13.reverse_apply_diff_partial
+#print axioms LyModel.Props.C13.reverse_apply_userord_fails
+#print axioms LyModel.Props.C13.reverse_apply_userord_delete_fails
+#print axioms LyModel.Props.C13.merge_apply_nodefaults_fails
+#print axioms LyModel.Props.C13.merge_apply_mergedefaults_fails
+#print axioms LyModel.Props.C13.op_order_matches_source
+#print axioms LyModel.Props.C13.merge_table_rejects
+#print axioms LyModel.Props.C13.merge_table_accepts
